@@ -1564,6 +1564,9 @@ func (t *Terminal) UpdateList(merger *Merger) {
 	if t.hasResultActions {
 		t.eventChan <- tui.Result.AsEvent()
 	}
+	if verifOn {
+		verifTermList(t)
+	}
 	t.mutex.Unlock()
 	t.reqBox.Set(reqInfo, nil)
 	t.reqBox.Set(reqList, nil)
@@ -4451,6 +4454,10 @@ func (t *Terminal) Loop() error {
 					continue
 				}
 				version++
+				if verifOn {
+					verifPreview("pick", "version", version, "q", query, "item", verifItemIndex(items[0]), "nitems", len(items))
+					verifGate("pv.beforeStart", int(version), 0)
+				}
 				// We don't display preview window if no match
 				if items[0] != nil {
 					command, tempFiles := t.replacePlaceholder(commandTemplate, false, query, items)
@@ -4464,6 +4471,9 @@ func (t *Terminal) Loop() error {
 					finishChan := make(chan bool, 1)
 					err := cmd.Start()
 					if err == nil {
+						if verifOn {
+							verifPreview("start", "version", version, "pid", cmd.Process.Pid, "command", command)
+						}
 						reapChan := make(chan bool)
 						lineChan := make(chan eachLine)
 						// Goroutine 1 reads process output
@@ -4526,6 +4536,9 @@ func (t *Terminal) Loop() error {
 						// Goroutine 3 is responsible for cancelling running preview command
 						go func(version int64) {
 							timer := time.NewTimer(previewDelayed)
+							if verifOn {
+								verifGate("pv.beforeWatch", int(version), 0)
+							}
 						Loop:
 							for {
 								select {
@@ -4534,6 +4547,9 @@ func (t *Terminal) Loop() error {
 								case <-timer.C:
 									t.reqBox.Set(reqPreviewDelayed, version)
 								case immediately := <-t.killChan:
+									if verifOn {
+										verifPreview("kill", "version", version, "immediately", immediately)
+									}
 									if immediately {
 										util.KillCommand(cmd)
 									} else {
@@ -4565,6 +4581,9 @@ func (t *Terminal) Loop() error {
 						finishChan <- true // Tell Goroutine 3 to stop
 						<-reapChan         // Goroutine 2 and 3 finished
 						<-reapChan
+						if verifOn {
+							verifPreview("exit", "version", version, "status", cmd.ProcessState.ExitCode())
+						}
 						removeFiles(tempFiles)
 					} else {
 						// Failed to start the command. Report the error immediately.
@@ -4580,6 +4599,9 @@ func (t *Terminal) Loop() error {
 	refreshPreview := func(command string) {
 		if len(command) > 0 && t.canPreview() {
 			_, list := t.buildPlusList(command, false)
+			if verifOn {
+				verifPreview("enqueue", "q", string(t.input), "item", verifItemIndex(list[0]), "nitems", len(list), "template", command)
+			}
 			t.cancelPreview()
 			t.previewBox.Set(reqPreviewEnqueue, previewRequest{command, t.evaluateScrollOffset(), list, t.environForPreview(), string(t.input)})
 		}
@@ -4599,6 +4621,9 @@ func (t *Terminal) Loop() error {
 			}
 			t.tui.Close()
 			code = getCode()
+			if verifOn {
+				verifTermExit(t, code)
+			}
 			if code <= ExitNoMatch && t.history != nil {
 				t.history.append(string(t.input))
 			}
@@ -4649,6 +4674,9 @@ func (t *Terminal) Loop() error {
 						info = true
 					case reqList:
 						t.printList()
+						if verifOn {
+							verifTermRender(t, "list")
+						}
 						currentIndex := t.currentIndex()
 						focusChanged := focusedIndex != currentIndex
 						if focusChanged && focusedIndex >= 0 && t.track == trackCurrent {
@@ -4716,6 +4744,9 @@ func (t *Terminal) Loop() error {
 						return
 					case reqPreviewDisplay:
 						result := value.(previewResult)
+						if verifOn {
+							verifPreview("display", "version", result.version, "nlines", len(result.lines), "lines", verifHead(result.lines, 4))
+						}
 						if t.previewer.version != result.version {
 							t.previewer.version = result.version
 							t.previewer.following.Force(t.activePreviewOpts.follow)
@@ -4757,6 +4788,9 @@ func (t *Terminal) Loop() error {
 					t.printInfo()
 				}
 				t.flush()
+				if verifOn {
+					verifTermRender(t, "flush")
+				}
 				t.mutex.Unlock()
 				t.uiMutex.Unlock()
 			})
@@ -4947,6 +4981,9 @@ func (t *Terminal) Loop() error {
 			//   actions to allow changing the query even when the input is hidden
 			//     e.g. fzf --no-input --bind 'space:show-input+change-query(foo)+hide-input'
 			currentInput := t.input
+			if verifOn {
+				verifTermAct(t, a, event)
+			}
 		Action:
 			switch a.t {
 			case actIgnore, actStart, actClick:
@@ -6140,6 +6177,9 @@ func (t *Terminal) Loop() error {
 		var reloadRequest *searchRequest
 		if reload {
 			reloadRequest = &searchRequest{sort: t.sort, sync: reloadSync, nth: newNth, command: newCommand, environ: t.environ(), changed: changed, denylist: denylist, revision: t.merger.Revision()}
+		}
+		if verifOn {
+			verifTermLoop(t, event, changed, reload)
 		}
 		t.mutex.Unlock() // Must be unlocked before touching reqBox
 
